@@ -234,6 +234,11 @@ class Canon:
                         r = '[' + ', '.join(self.seq(*bo)) + ']'
                 args.append(r if r is not None else self.c(a))
             ln = self.ABBREV.get(ln, ln)
+            if e.name and e.name.startswith('gm_sm9::') and ln in ('g_mul', 'point_mul', 'point_add', 'point_sub', 'point_neg', 'point_double'):
+                if '<impl points::TwistPoint>' in e.name:
+                    ln = 'G2.' + ln
+                elif '<impl points::Point>' in e.name:
+                    ln = 'G1.' + ln
             if ln in ('to_be_bytes', 'to_le_bytes', 'from_be_bytes', 'from_le_bytes'):
                 import re as _re
                 m = _re.search(r'<impl (u8|u16|u32|u64|u128|usize)>', e.name or '')
